@@ -343,11 +343,11 @@ def run_server(spec: dict, seed: int, conf: dict | None = None, replay_actions: 
 # (K) the trace as an op stream for `wfdriver timers`
 
 
-def _replay_oracle(calls: list, start: int) -> str:
+def _replay_oracle(calls: list, start: int, end: int | None = None) -> str:
     """policy decisions taken by the replay (`replay_ticks_stream`) that starts at call index `start`"""
     log: list = []
     i = start
-    while i < len(calls) and calls[i].caller == "replay_ticks_stream":
+    while i < (len(calls) if end is None else min(end, len(calls))) and calls[i].caller == "replay_ticks_stream":
         log += list(calls[i].oracle)
         i += 1
     return oracle_tokens(log)
@@ -361,6 +361,16 @@ def norm_rshow(line: str) -> str:
     adapter are in neither `_pending_workers` nor `_task_keys` yet, so the worker list cannot be observed there
     (it is compared at every tick instead)"""
     return _R_SECTION.sub(" R * S ", line, count=1)
+
+
+def _replay_error(calls: list, start: int, end: int | None = None) -> bool:
+    """did the replay that starts at call index `start` raise?"""
+    i = start
+    while i < (len(calls) if end is None else min(end, len(calls))) and calls[i].caller == "replay_ticks_stream":
+        if calls[i].error is not None:
+            return True
+        i += 1
+    return False
 
 
 def model_lines(tr: STrace) -> tuple[list[str], list[str]]:
@@ -397,6 +407,8 @@ def model_lines(tr: STrace) -> tuple[list[str], list[str]]:
         if m["kind"] == "abort":
             last_abort[m["idx"]] = m
 
+    err_state = ["_"]  # what the last send / resume left in the model's `err` field
+
     def emit(item: tuple[int, int, str, Any]) -> None:
         _k, _n, kind, m = item
         if kind == "swrite":
@@ -417,14 +429,19 @@ def model_lines(tr: STrace) -> tuple[list[str], list[str]]:
                 ops.append("timers"); outs.append(enc.lst([h[5] for h in m["heap"] if h[1] in ("retry", "wtimeout")]))
             ops.append(f"restart {enc.num(m['t'])}"); outs.append("ok")
         elif kind == "resume":
-            ops.append(f"resume {enc.num(m['t'])} {_replay_oracle(calls, m['idx0'])}"); outs.append("ok")
+            # `await stack.start()` waits for _on_server_start: its replay (if any) lies inside [idx0, idx)
+            ops.append(f"resume {enc.num(m['t'])} {_replay_oracle(calls, m['idx0'], m['idx'])}"); outs.append("ok")
+            if _replay_error(calls, m["idx0"], m["idx"]):
+                err_state[0] = "replay-raised"
         elif kind == "send":
             if m["err"] is None:
                 ops.append(f"send {enc.num(m['t'])} {_replay_oracle(calls, m['idx0'])} {m['tick']}"); outs.append("ok")
+                # the reload runs in the fire-and-forget task of ctx.send_event: a replay that raises loses the send silently
+                err_state[0] = "replay-raised" if (not m["was_live"] and _replay_error(calls, m["idx0"])) else "_"
         elif kind == "quiet":
             row = m["row"]
             ops.append("hstate")
-            outs.append("status=%s idle=%s live=%d loads=%d err=_" % (row["status"], enc.num(row["idle"]), 1 if m["live"] else 0, m["inits"]))
+            outs.append("status=%s idle=%s live=%d loads=%d err=%s" % (row["status"], enc.num(row["idle"]), 1 if m["live"] else 0, m["inits"], err_state[0]))
             if m["snap"] is not None:
                 ops.append("rshow"); outs.append(norm_rshow(m["snap"]))
             elif not m["live"]:
